@@ -235,12 +235,14 @@ def run(ctx):
         # 7. control byte table
         cb = F.trait_impl_fn("<ctap1::ControlByte as core::convert::TryFrom<u8>>", "try_from")
         if ctx.oblige("C08|control-byte|anchor", cb is not None, "anchor missing: TryFrom<u8> for ControlByte", cfg=cfg):
+            from . import ftable as FT
             try:
-                _, rows = T.byte_table(cb, F)
-                acc = {b for b in range(256) if (T.first_match(rows, b) or {}).get("kind") == "ok"}
-                rej = {T.result_value((T.first_match(rows, b) or {}).get("res", {}), F)[1] for b in range(256) if b not in acc}
+                tab = FT.value_table(F, cb, range(256))
+                acc = {b for b, r in tab.items() if FT.classify(r)[0] == "ok"}
+                rej = {(FT.classify(r)[1] or ("x", None))[1] for b, r in tab.items() if b not in acc}
+                names = {b: FT.ctor_name(FT.classify(tab[b])[1]) for b in acc}
                 ctx.oblige("C08|control-byte|table", acc == {3, 7, 8} and rej == {STATUS + "IncorrectDataParameter"}, "control bytes accepted: %s, rejection: %s" % (sorted(acc), rej), cfg=cfg, where=cb["sp"])
-            except T.Unreadable as e:
+            except FT.Unreadable as e:
                 ctx.violation("C08|control-byte|unreadable", "UNREADABLE-IMPL: %s" % e, cfg=cfg)
         # 8. Command<S> delegates to the view
         f2 = F.trait_impl_fn(FN2, "try_from")
